@@ -37,6 +37,16 @@ def fstring_error_node_v39(replay):
     return 'fstring=True v>=3.9=True ownline=True' in sig
 
 
+def _gone(replay, r):
+    """the failure named by the replay's signature no longer occurs on the neutralised input (another, differently named failure of the same
+    program - a second defect in a composed input - is judged on its own when it is reported)"""
+    if r is None:
+        return True
+    if not isinstance(r, str) or r == 'not-accepted':
+        return False
+    return r.split(':')[0] != str(replay.get('signature', '')).split(':')[0]
+
+
 def backslash_only_line(replay):
     """F13: the input has a physical line that consists of white space and a backslash continuation only,
     and removing those lines' backslash-newline makes the failure go away"""
@@ -47,7 +57,7 @@ def backslash_only_line(replay):
     fixed = re.sub(pat, lambda m: m.group(1), text)
     mod = importlib.import_module('harness.props.' + replay['property'])
     if hasattr(mod, 'recheck'):
-        return mod.recheck(replay, fixed) is None
+        return _gone(replay, mod.recheck(replay, fixed))
     return True
 
 
@@ -74,7 +84,7 @@ def formfeed_at_line_start(replay):
     fixed = re.sub(r'(?m)^[ \t\f]*\f', '', text)
     mod = importlib.import_module('harness.props.' + replay['property'])
     if hasattr(mod, 'recheck'):
-        return mod.recheck(replay, fixed) is None
+        return _gone(replay, mod.recheck(replay, fixed))
     return True
 
 
@@ -159,7 +169,7 @@ def backslash_before_brace(replay):
     fixed = text.replace('\\{', '{')
     mod = importlib.import_module('harness.props.' + replay['property'])
     if hasattr(mod, 'recheck'):
-        return mod.recheck(replay, fixed) is None
+        return _gone(replay, mod.recheck(replay, fixed))
     return True
 
 
@@ -171,7 +181,7 @@ def barry_future_import(replay):
     fixed = text.replace('barry_as_FLUFL', 'division')
     mod = importlib.import_module('harness.props.' + replay['property'])
     if hasattr(mod, 'recheck'):
-        return mod.recheck(replay, fixed) is None
+        return _gone(replay, mod.recheck(replay, fixed))
     return True
 
 
@@ -215,7 +225,7 @@ def nested_async_comprehension(replay):
     fixed = ''.join(lines)
     mod = importlib.import_module('harness.props.' + replay['property'])
     if hasattr(mod, 'recheck'):
-        return mod.recheck(replay, fixed) is None
+        return _gone(replay, mod.recheck(replay, fixed))
     return True
 
 
@@ -272,13 +282,16 @@ def yield_in_comprehension_before_38(replay):
 
 
 def walrus_in_lambda_in_class_comprehension(replay):
-    """F46: an assignment expression inside a lambda that sits inside a comprehension of a class body (the lambda is its own scope: CPython accepts)"""
+    """F46: an assignment expression in a comprehension with a lambda between it and the class body, in either nesting order (the lambda is a function scope: CPython accepts)"""
     import ast
     t = _ast_of(replay)
     if t is None:
         return False
     for n, chain in _scoped_walk(t):
-        if isinstance(n, ast.NamedExpr) and chain and isinstance(chain[0], ast.Lambda) and \
-                any(isinstance(s, (ast.GeneratorExp, ast.ListComp, ast.SetComp, ast.DictComp)) for s in chain[1:]):
-            return True
+        comps = (ast.GeneratorExp, ast.ListComp, ast.SetComp, ast.DictComp)
+        if isinstance(n, ast.NamedExpr) and any(isinstance(s, comps) for s in chain):
+            # between the assignment expression and the nearest class body (if any) there is a lambda: its scope, not the class, receives the name
+            upto = next((k for k, s in enumerate(chain) if isinstance(s, ast.ClassDef)), len(chain))
+            if any(isinstance(s, ast.Lambda) for s in chain[:upto]):
+                return True
     return False
